@@ -23,6 +23,7 @@ func init() {
 		"regexp.Compile":          intrRegexpCompile,
 		"(*sync.Once).Do":         intrOnceDo,
 		"strconv.Quote":           intrStrconvQuote,
+		"unicode/utf8.DecodeRune": intrDecodeRune,
 		"strconv.Itoa":            intrFreshString,
 		"strconv.FormatUint":      intrFormatUint,
 		"strconv.FormatInt":       intrFreshString,
@@ -145,4 +146,14 @@ func intrStringsRepeat(f *Frame, callee *ssa.Function, args []Val, pc string, st
 	f.safe(pc, "repeat", posOf(ins, f), fmt.Sprintf("(>= %s 0)", args[1].T), "strings.Repeat: count is not negative")
 	r := vc.freshConst("rep", "Str")
 	return Val{T: r, Typ: callee.Signature.Results().At(0).Type()}, pc
+}
+
+// utf8.DecodeRune(p) (rune, size): assumed panic-free, size in 0..4, rune in the int32 range
+func intrDecodeRune(f *Frame, callee *ssa.Function, args []Val, pc string, st *State, ins ssa.Value) (Val, string) {
+	vc := f.vc
+	res := callee.Signature.Results()
+	r := vc.freshConst("rune", "Int")
+	sz := vc.freshConst("runesize", "Int")
+	vc.assert(fmt.Sprintf("(and (<= 0 %s) (<= %s 1114111) (<= 0 %s) (<= %s 4))", r, r, sz, sz))
+	return Val{Tuple: []Val{{T: r, Typ: res.At(0).Type()}, {T: sz, Typ: res.At(1).Type()}}, Typ: res}, pc
 }
